@@ -6,3 +6,10 @@ import Frequenz.Model.JsonUtil
 import Frequenz.Props.C03
 import Frequenz.Props.C04
 import Frequenz.Props.C11
+import Frequenz.Props.C07
+import Frequenz.Props.C08
+import Frequenz.Props.C16
+import Frequenz.Props.C19
+import Frequenz.Props.C20
+import Frequenz.Props.C14
+import Frequenz.Props.C15
